@@ -127,6 +127,11 @@ fn abscissae(run: &Run) -> Vec<(String, Vec<f64>)> {
     }
     v.push(("clustered".into(), vec![-2.0, -1.9375, -1.875, -1.75, 0.0, 0.0625, 1.5, 1.5625, 1.625, 2.0]));
     v.push(("one-sided".into(), (0..12).map(|i| 0.5 + 0.125 * i as f64).collect()));
+    // asymmetric designs whose low odd power sums vanish (sum x = sum x^3 = 0, sum x^5 != 0) and relatives
+    v.push(("odd-sums-vanish".into(), vec![-2.0, -1.0, -1.0, -1.0, -1.0, 0.0, 0.5, 0.5, 0.5, 0.5, 0.5, 1.5, 2.0]));
+    v.push(("odd-sums-vanish-mirrored".into(), vec![2.0, 1.0, 1.0, 1.0, 1.0, 0.0, -0.5, -0.5, -0.5, -0.5, -0.5, -1.5, -2.0]));
+    v.push(("first-moment-vanishes".into(), vec![-2.0, -0.5, -0.5, 0.25, 0.75, 2.0, -1.0, 1.0]));
+    v.push(("symmetric-plus-one".into(), vec![-2.0, -1.5, -1.0, -0.5, 0.5, 1.0, 1.5, 2.0, 0.25]));
     if run.thorough() {
         // 3000 pseudo-random dyadic point sets (multiples of 2^-8 in [-2,2]) of 7..60 points
         let mut st = 0x1234_5678_9abc_def1u64;
